@@ -68,6 +68,8 @@ def gen(rng, t):
     kw, d = {}, {'n': n, 'm': m, 'residual': kind, 'A': A, 'b': b, 'scenario': t}
     if t < 8:
         # plain scenarios first: default options, linear residuals, (no bounds | box | box with scaling) x (interpolation | regression), a budget that lets the run finish
+        A = rng.normal(size=(m, n)); b = rng.normal(size=m)
+        d.update(A=A, b=b)
         fun = lambda x, *a: A @ x - b
         d['residual'] = 'lin'
         c = ['none', 'box', 'box_scaled', 'box_scaled'][t % 4]
